@@ -729,6 +729,65 @@ pub fn _parse_grep_line<'b>(regex: &Regex, line: &'b str) -> Option<GrepLine<'b>
     })
 }
 
+// Verification hook wrappers (private items exposed to src/verif_hooks/grep.rs).
+#[cfg(dandavison_delta_verif)]
+pub fn verif_regex(i: usize) -> &'static Regex {
+    match i {
+        0 => &GREP_LINE_REGEX_ASSUMING_COLOR,
+        1 => &GREP_LINE_REGEX_ASSUMING_FILE_EXTENSION_AND_LINE_NUMBER,
+        2 => &GREP_LINE_REGEX_ASSUMING_FILE_EXTENSION_NO_SPACES,
+        3 => &GREP_LINE_REGEX_ASSUMING_FILE_EXTENSION,
+        _ => &GREP_LINE_REGEX_ASSUMING_NO_INTERNAL_SEPARATOR_CHARS,
+    }
+}
+
+#[cfg(dandavison_delta_verif)]
+pub fn verif_ripgrep_json_parse_line(line: &str) -> Option<GrepLine> {
+    ripgrep_json::parse_line(line)
+}
+
+#[cfg(dandavison_delta_verif)]
+pub fn verif_make_style_sections<'a>(
+    line: &'a str,
+    submatches: &[(usize, usize)],
+    match_style: Style,
+    non_match_style: Style,
+) -> StyleSectionSpecifier<'a> {
+    make_style_sections(line, submatches, match_style, non_match_style)
+}
+
+#[cfg(dandavison_delta_verif)]
+pub fn verif_get_code_style_sections<'b>(
+    raw_line: &'b str,
+    match_style: Style,
+    non_match_style: Style,
+    path: &str,
+    line_number: Option<usize>,
+) -> Option<StyleSectionSpecifier<'b>> {
+    get_code_style_sections(raw_line, match_style, non_match_style, path, line_number)
+}
+
+#[cfg(dandavison_delta_verif)]
+pub fn verif_expand_tabs(
+    code: &str,
+    submatches: Vec<(usize, usize)>,
+    tab_width: usize,
+) -> (String, Vec<(usize, usize)>) {
+    let mut grep_line = GrepLine {
+        grep_type: GrepType::Ripgrep,
+        path: "".into(),
+        line_number: None,
+        line_type: LineType::Match,
+        code: code.to_string().into(),
+        submatches: Some(submatches),
+    };
+    grep_line.expand_tabs(&tabs::TabCfg::new(tab_width));
+    (
+        grep_line.code.to_string(),
+        grep_line.submatches.unwrap_or_default(),
+    )
+}
+
 #[cfg(test)]
 mod tests {
     use crate::handlers::grep::{
